@@ -215,3 +215,46 @@
         assert!(x.is_infinite() == (exp == 0x7ff && man == 0));
         assert!(x.is_nan() == (x != x));
     }
+    // cpc_union2: u64::count_ones(w) == pcn(w, 64), pcn = number of set bits among the low n bits (interpreted recursive spec)
+    #[kani::proof]
+    #[kani::unwind(66)]
+    fn shim_count_ones_pcn() {
+        let w: u64 = kani::any();
+        let mut pcn: u32 = 0; let mut n = 0u32;
+        while n < 64 { if (w >> n) & 1 == 1 { pcn += 1; } n += 1; }
+        assert!(w.count_ones() == pcn);
+    }
+    // hll_array4: Option::get_or_insert_with (Some(v): v is returned and kept, closure not run; None: the closure value is stored and returned)
+    #[kani::proof]
+    fn shim_get_or_insert_with() {
+        let o0: Option<u64> = kani::any(); let v: u64 = kani::any();
+        let mut o = o0; let mut ran = false;
+        let r: u64 = *o.get_or_insert_with(|| { ran = true; v });
+        match o0 { Some(x) => { assert!(r == x && o == Some(x) && !ran); } None => { assert!(r == v && o == Some(v) && ran); } }
+        // the returned reference aliases the stored value: *final(o) == Some(*final(r))
+        let mut o = o0; { let p = o.get_or_insert_with(|| v); *p = 7; } assert!(o == Some(7));
+    }
+    // hll_dispatch vx_map_array4/6/8: `r.map(Mode::ArrayN)`: Ok(a) -> Ok(f(a)), Err(e) -> Err(e)
+    #[kani::proof]
+    fn shim_result_map() {
+        #[derive(PartialEq, Clone, Copy)] enum M { A(u8), B(u8) }
+        let r: Result<u8, u16> = if kani::any() { Ok(kani::any()) } else { Err(kani::any()) };
+        let m = r.map(M::A);
+        match r { Ok(a) => { assert!(m == Ok(M::A(a))); } Err(e) => { assert!(m == Err(e)); } }
+    }
+    // fi_items: String::from_utf8 / as_bytes / len and axiom_utf8 with utf8(s) := s.as_bytes(), valid_utf8(v) := std::str::from_utf8(v).is_ok():
+    // from_utf8(v) is Ok(s) with utf8(s) == v exactly when v is valid, Err otherwise; len == number of bytes; strings with equal bytes are equal.
+    #[kani::proof]
+    #[kani::unwind(8)]
+    fn shim_string_utf8() {
+        let a: [u8; 4] = kani::any(); let n: usize = kani::any(); kani::assume(n <= 4);
+        let valid = core::str::from_utf8(&a[..n]).is_ok();
+        let r = String::from_utf8(a[..n].to_vec());
+        assert!(r.is_ok() == valid);
+        if let Ok(s) = r {
+            assert!(s.len() == n);
+            let b = s.as_bytes(); assert!(b.len() == n);
+            let i: usize = kani::any(); if i < n { assert!(b[i] == a[i]); }
+            assert!(core::str::from_utf8(b).is_ok());          // valid_utf8(utf8(s))
+        }
+    }
